@@ -101,7 +101,7 @@ Definition closed_task (max_stack : N) (tt : ttrace) : Prop :=
 Lemma all_rows_closed max_stack nms tts : Forall (closed_task max_stack) tts ->
   all_rows (mkcase max_stack nms (map trace_recs tts)) = concat (map spec_task tts).
 Proof.
-  unfold all_rows. cbn [c_max c_tasks]. induction 1 as [|tt t Hc _ IH]; [reflexivity|].
+  unfold all_rows, all_rows_gen. cbn [c_max c_tasks]. fold task_rows. induction 1 as [|tt t Hc _ IH]; [reflexivity|].
   cbn [map concat]. rewrite IH. f_equal.
   destruct Hc as (Ho & Hh & Hw). unfold trace_recs, spec_task. rewrite Ho. cbn [flat_open spec_open].
   rewrite !app_nil_r. apply task_rows_closed; assumption.
@@ -118,7 +118,7 @@ Theorem checker_accepts_model_closed max_stack nms tts :
   sumN (map w_total (concat (map spec_task tts))) < M64 ->
   ok_table nms tts (report (mkcase max_stack nms (map trace_recs tts))) = true.
 Proof.
-  intros Hc Hb. unfold report. cbn [c_names]. rewrite (all_rows_closed _ _ _ Hc).
+  intros Hc Hb. unfold report, report_gen. fold all_rows. cbn [c_names]. rewrite (all_rows_closed _ _ _ Hc).
   set (spec := concat (map spec_task tts)) in *.
   assert (Forall (fun w => w_self w <= w_total w) spec) as Hle.
   { unfold spec. apply Forall_forall. intros w Hw. apply in_concat in Hw. destruct Hw as (l & Hl & Hw).
@@ -177,18 +177,21 @@ Example ex_checker_rejects :
          (report (mkcase 1024 [(1, 1); (2, 2); (3, 3)] (map trace_recs ex_tts)))) = false.
 Proof. vm_compute. reflexivity. Qed.
 
-(* ------------------------------------------------------------------ refuted outside the guard *)
+(* ------------------------------------------------------------------ the code before the fixes (legacy) *)
 (* data of a forked child: the frames main{work{fork}} are inherited, only their EXITs are recorded.
-   [work]'s only invocation is outermost, yet it is classified recursive (the never-entered slots all
-   have addr 0): its Total is 0 while its Self is 1000. *)
+   [work]'s only invocation is outermost.  Before the fix it was classified recursive (the never-entered
+   slots all have addr 0): Total 0 while Self 1000.  Now it counts: Total 1000. *)
 Definition child_case : case :=
   mkcase 1024 [(10, 1); (20, 2); (30, 3)] [[mkrec EXIT 2 30 1310; mkrec EXIT 1 20 2310; mkrec EXIT 0 10 3310]].
-Lemma inherited_frames_refuted :
-  exists n, find_node (report child_case) 2 = Some n
-            /\ n_call n = 1 /\ sum (n_total n) = 0 /\ recs (n_total n) = 1000 /\ sum (n_self n) = 1000.
-Proof. eexists. vm_compute. repeat split; reflexivity. Qed.
+Lemma inherited_frames_legacy_refuted :
+  (exists n, find_node (report_gen true child_case) 2 = Some n
+             /\ n_call n = 1 /\ sum (n_total n) = 0 /\ recs (n_total n) = 1000 /\ sum (n_self n) = 1000)
+  /\ (exists n, find_node (report child_case) 2 = Some n
+              /\ n_call n = 1 /\ sum (n_total n) = 1000 /\ recs (n_total n) = 0 /\ sum (n_self n) = 1000).
+Proof. split; eexists; vm_compute; repeat split; reflexivity. Qed.
 
-(* ... and a LOST marker after such a start wraps a duration below zero *)
+(* STILL PRESENT (known finding lost-after-inherited-wrap): a LOST marker after data that starts at
+   depth > 0 wraps a duration below zero *)
 Definition lost_case : case :=
   mkcase 1024 [(10, 1); (20, 2); (30, 3)]
     [[mkrec LOST 0 1 0; mkrec EXIT 2 30 1300; mkrec EXIT 1 20 1400; mkrec ENTRY 1 20 1500; mkrec LOST 0 1 0;
@@ -197,15 +200,19 @@ Lemma lost_after_inherited_refuted :
   exists n, find_node (report lost_case) 2 = Some n /\ smax (n_total n) = M64 - 1499.
 Proof. eexists. vm_compute. split; reflexivity. Qed.
 
-(* report --task measures open calls until the last EXIT: 200 ns instead of 8000 ns; no EXIT, no line *)
-Lemma task_mode_open_refuted :
+(* report --task before the fix measured open calls until the last EXIT: 200 ns instead of 8000 ns; no EXIT,
+   no line.  Now a task's line adds up to the Self times of its rows. *)
+Lemma task_mode_open_legacy_refuted :
   let killed := [mkrec ENTRY 0 10 1000; mkrec ENTRY 1 30 1100; mkrec EXIT 1 30 1200; mkrec ENTRY 1 20 1300;
                  mkrec ENTRY 2 30 9000] in
-  task_line 1024 killed = (200, 2)
+  let noexit := [mkrec ENTRY 0 10 1000; mkrec ENTRY 1 20 5000] in
+  task_line_legacy 1024 killed = (200, 2) /\ task_line_legacy 1024 noexit = (0, 0)
   /\ sumN (map w_self (task_rows 1024 killed)) = 8000
-  /\ task_line 1024 [mkrec ENTRY 0 10 1000; mkrec ENTRY 1 20 5000] = (0, 0).
+  /\ task_line 1024 killed = (8000, 4) /\ task_line 1024 noexit = (4000, 2).
 Proof. vm_compute. repeat split; reflexivity. Qed.
 
-(* report --diff without colours: an increase of the Total from 100 ns to 300 ns is printed with a minus sign *)
-Lemma diff_sign_refuted : show_dtime 100 300 = Some (true, 0, 200, 0) /\ show_dtime 300 100 = Some (false, 0, 200, 0).
-Proof. vm_compute. split; reflexivity. Qed.
+(* report --diff without colours before the fix: an increase from 100 ns to 300 ns was printed with "-" *)
+Lemma diff_sign_legacy_refuted :
+  show_dtime_legacy 100 300 = Some (true, 0, 200, 0) /\ show_dtime_legacy 300 100 = Some (false, 0, 200, 0)
+  /\ show_dtime 100 300 = Some (false, 0, 200, 0) /\ show_dtime 300 100 = Some (true, 0, 200, 0).
+Proof. vm_compute. repeat split; reflexivity. Qed.
